@@ -5,7 +5,11 @@
 // routers (lines, rings, stars, trees, grids, random graphs; 1- and 2-byte
 // labels; varied router-info sizes) under seeded random delivery orders. All
 // runs are recorded and judged by TLC (GossipMesh_Trace: NoEcho, loop-free,
-// once per path, drained, Reach by following the real labels).
+// once per path, drained, Reach by following the real labels). Living meshes
+// (relink.go): after the first drained round links of the same running routers
+// are lost and established again (other / same / exchanged labels, now and then
+// another latency or a round of announcements in between), everybody announces
+// again and the same judgement is made against the links as they are now.
 package main
 
 import (
@@ -56,6 +60,12 @@ type run struct {
 	deliv   int
 	// sequential: finish drains the network after each origin's announcements
 	sequential bool
+	// living meshes (relink.go): announcements sent before the present round, the number of the present round, what
+	// was done to the links before it (nil in the first round), and for every quiet event its number and that record
+	annBase  map[int]int
+	round    int
+	relinked []map[string]any
+	quietAt  map[int]quietInfo // index in events -> round
 }
 
 // idsOverride: identities for the next meshes (nil: the pooled identities, all of one continent)
@@ -191,7 +201,7 @@ func (r *run) finish(origins []int, perLink bool, rng *rand.Rand, maxDeliver int
 		if perLink {
 			want = len(r.ms.Node(o).Peer.GetLinks())
 		}
-		for r.annSent[o] < want {
+		for r.annSent[o]-r.annBase[o] < want {
 			r.announce(o)
 			// interleave: deliver a few frames between announcements
 			for k := 0; rng != nil && k < rng.Intn(4) && r.ms.W.NInflight() > 0; k++ {
@@ -228,6 +238,10 @@ func (r *run) finish(origins []int, perLink bool, rng *rand.Rand, maxDeliver int
 		}
 	}
 	sort.Ints(origins)
+	if r.quietAt == nil {
+		r.quietAt = map[int]quietInfo{}
+	}
+	r.quietAt[len(r.events)] = quietInfo{round: r.round, relinked: r.relinked, links: r.ms.Topo()["links"]}
 	r.events = append(r.events, map[string]any{"ev": "quiet", "tables": tables, "announced": origins})
 	return true
 }
@@ -275,6 +289,12 @@ func (b *batch) validate(c *vf.Ctx, label string) {
 	case "quiet":
 		what = "after the network drained some router has no route whose labels lead to another router that announced itself (or frames were left undelivered)"
 		kind = "reach"
+		if qi, ok := r.quietAt[idx-b.starts[ri]]; ok && qi.round > 0 {
+			// a living mesh: say what happened to the links and which routes do not lead anywhere now
+			what = fmt.Sprintf("round %d of a living mesh (the same running routers; before this round: %s; then every router announced itself again and the network drained): %s",
+				qi.round+1, describeRelinks(qi.relinked), describeUnreached(ev, qi.links))
+			kind = "reach-after-relink"
+		}
 		// name the missing pairs for the key-independent description
 		ev = map[string]any{"announced": ev["announced"], "tables": ev["tables"]}
 	}
@@ -321,7 +341,7 @@ func toEdges(raw [][]int, rng *rand.Rand, big bool) []mesh.Edge {
 func main() { vf.Main("C09", "model_checking", run0) }
 
 func run0(c *vf.Ctx) {
-	c.Rule("M: TLC exhaustive over every delivery order for all 4 connected labelled 3-node graphs (all nodes announce) and all 38 connected labelled 4-node graphs (each single origin; thorough: each pair of origins), checking NoEcho, loop-free, once per path, at most three routes, Reach at quiescence and termination under fairness. R: every transition of those graphs replayed as a schedule on real router stacks. T: meshes of 5..16 routers in 7 families with random 1-/2-byte labels, varied router-info sizes, seeded random delivery orders. distinct = distinct (family, size, label seed, schedule seed)")
+	c.Rule("M: TLC exhaustive over every delivery order for all 4 connected labelled 3-node graphs (all nodes announce) and all 38 connected labelled 4-node graphs (each single origin; thorough: each pair of origins), checking NoEcho, loop-free, once per path, at most three routes, Reach at quiescence and termination under fairness. R: every transition of those graphs replayed as a schedule on real router stacks. T: meshes of 5..16 routers in 7 families with random 1-/2-byte labels, varied router-info sizes, seeded random delivery orders; living meshes of 4..16 routers of the same families: rounds of (links lost and established again with other, the same or exchanged labels, sometimes another latency, sometimes announcements while they are away; all announce; drain; same judgement against the present links). distinct = distinct (family, size, label seed, schedule seed)")
 	c.Assume("honest routers only (C08 covers dishonest ones)", "announcements of one origin carry distinct millisecond stamps in replayed schedules (the driver spaces Send calls by 2 ms); equal stamps are tolerated by the trace spec in stage T", "exhaustive schedules only up to 4 routers")
 
 	// ---- M ----
@@ -653,6 +673,11 @@ func run0(c *vf.Ctx) {
 		}
 	}
 	b.validate(c, "meshes-two-continents")
+	gens := map[string]func(n int) [][]int{}
+	for _, f := range fams {
+		gens[f.name] = f.gen
+	}
+	livingMeshes(c, rng, gens)
 	concurrentRelays(c, rng)
 }
 
